@@ -188,6 +188,55 @@ def polarity(ctx, res):
             res.oblige(bool(un) and bool(rg), key + ":both", mod.loc(fn),
                        f"{meth} must both unregister (old side) and register "
                        f"(new side); found {len(un)} / {len(rg)}")
+            # must-pass-through: a path that leaves the handler without
+            # having unregistered is justified only by a test on the *old*
+            # side (nothing was attached), one without registration only by
+            # a test on the *new* side
+            from ..cfg import enumerate_paths
+            from ..pycfg import build_cfg
+            fi = repo.inlined(TL, f"ListenerItem.{meth}")
+            g_ = build_cfg(fi, meth)
+
+            def _mentions(a_, what):
+                if a_ is None:
+                    return False
+                tgt = a_.iter if isinstance(a_, ast.For) else a_
+                subtree = a_ if isinstance(a_, ast.For) else tgt
+                for c_ in ast.walk(subtree):
+                    if isinstance(c_, ast.Call) and (
+                            (isinstance(c_.func, ast.Attribute)
+                             and c_.func.attr == what)
+                            or (isinstance(c_.func, ast.Name)
+                                and c_.func.id == what)):
+                        return True
+                return False
+            for what, sidep, label in (("unregister", oldp, "old"),
+                                       ("register", newp, "new")):
+                bad = None
+                for path in enumerate_paths(g_, max_paths=4000):
+                    if path and g_.nodes[path[-1][0]].id == g_.raise_exit.id:
+                        continue
+                    did = False
+                    justified = False
+                    for nid, lab in path:
+                        nd = g_.nodes[nid]
+                        if nd.kind == "cond":
+                            if sidep in {x.id for x in ast.walk(nd.ast)
+                                         if isinstance(x, ast.Name)}:
+                                justified = True
+                        elif _mentions(nd.ast, what):
+                            did = True
+                    if not did and not justified and bad is None:
+                        bad = [g_.nodes[nid].line for nid, lab in path
+                               if g_.nodes[nid].kind == "cond"]
+                res.oblige(bad is None, f"{key}:{what}-skipped", mod.loc(fn),
+                           f"{meth} can return without any "
+                           f"`{what}` although no test on the {label} value "
+                           f"`{sidep}` says there is nothing to {what} "
+                           f"(conditions at lines {bad}): "
+                           + ("the object that left stays hooked and keeps "
+                              "firing the handler" if what == "unregister"
+                              else "the object that arrived is never hooked"))
         # inside the item loops the (un)registration is unconditional: a
         # test that depends on the element (`if obj not in new`, equality
         # with another item, ...) leaves a listener on a detached object or
@@ -629,3 +678,64 @@ def maintenance_dispatch(ctx, res):
                        f"value) and 'ui'/'new' run it on another thread; the "
                        f"sibling _register_* methods use 'extended'")
     res.floor(5)
+
+
+# ---------------------------------------------------------------------------
+# who may write the `notify` flag of a listener node
+
+@rule("C16.notify-writer", ["C16"],
+      "the notify flag of a parsed listener node ('.' = notify, ':' = quiet) "
+      "is set only through the node's own polymorphic set_notify(): a group "
+      "forwards it to its items, a plain attribute store on a group is "
+      "ignored")
+def notify_writer(ctx, res):
+    repo = get_pyrepo(ctx)
+    mod = repo.module(TL)
+    setters = []
+    for cname, cls in mod.classes.items():
+        fn = cls.methods.get("set_notify")
+        if fn is not None:
+            setters.append((cname, fn))
+    if len(setters) < 2:
+        raise AnalysisError("set_notify implementations not found")
+    par = {}
+    for fn_owner in ast.walk(mod.tree):
+        if isinstance(fn_owner, (ast.FunctionDef, ast.AsyncFunctionDef)):
+            for x in ast.walk(fn_owner):
+                par.setdefault(id(x), fn_owner)
+    stores = [t for n in ast.walk(mod.tree)
+              if isinstance(n, (ast.Assign, ast.AugAssign, ast.AnnAssign))
+              for t in (n.targets if isinstance(n, ast.Assign) else [n.target])
+              if isinstance(t, ast.Attribute) and t.attr == "notify"]
+    calls = [c for c in ast.walk(mod.tree) if isinstance(c, ast.Call)
+             and isinstance(c.func, ast.Name) and c.func.id == "setattr"
+             and len(c.args) >= 2 and isinstance(c.args[1], ast.Constant)
+             and c.args[1].value == "notify"]
+    res.instance("set_notify", mod.loc(setters[0][1]),
+                 implementations=[c for c, _ in setters], stores=len(stores))
+    ok = True
+    for t in stores + calls:
+        owner = par.get(id(t))
+        inside = owner is not None and owner.name in ("set_notify", "__init__") \
+            and isinstance(t, ast.Attribute) \
+            and isinstance(t.value, ast.Name) \
+            and t.value.id == owner.args.args[0].arg
+        if not inside:
+            ok = False
+            res.violation(f"notify-store:{owner.name if owner else 'module'}",
+                          mod.loc(t),
+                          f"`{norm(t)[:50]}` writes the notify flag of a "
+                          f"listener node directly (in "
+                          f"{owner.name if owner else 'module code'}): a "
+                          f"ListenerGroup keeps no flag of its own and "
+                          f"forwards set_notify() to its items, so a ':' "
+                          f"after a bracketed group would still notify")
+    uses = [c for c in ast.walk(mod.tree) if isinstance(c, ast.Call)
+            and isinstance(c.func, ast.Attribute)
+            and c.func.attr == "set_notify"]
+    res.oblige(len(uses) >= 2, "set_notify:used", mod.loc(setters[0][1]),
+               "the parser no longer sets the notify flag through "
+               "set_notify()")
+    if ok:
+        res.oblige(True, "notify-store", "", "")
+    res.floor(1)
